@@ -198,7 +198,9 @@ HUGR_BV = {
                                                         z3.fpLT(f, z3.FPVal(2.0 ** 63, F64)), z3.fpGEQ(f, z3.FPVal(-(2.0 ** 63), F64)))),
     "arithmetic.conversions.trunc_u": (1, lambda f: z3.fpToUBV(RTZ, f, z3.BitVecSort(W)),
                                        lambda f: z3.And(z3.Not(z3.fpIsNaN(f)), z3.Not(z3.fpIsInf(f)),
-                                                        z3.fpLT(f, z3.FPVal(2.0 ** 64, F64)), z3.fpGT(f, z3.FPVal(-1.0, F64)))),
+                                                        # (negative non-integral inputs in (-1, 0) truncate to 0 on paper, but the installed emulator
+                                                        #  rejects every negative input: the region where the two readings differ is left undefined)
+                                                        z3.fpLT(f, z3.FPVal(2.0 ** 64, F64)), z3.fpGEQ(f, z3.FPVal(0.0, F64)))),
     "arithmetic.float.fadd": (2, lambda a, b: z3.fpAdd(RNE, a, b), None),
     "arithmetic.float.fsub": (2, lambda a, b: z3.fpSub(RNE, a, b), None),
     "arithmetic.float.fmul": (2, lambda a, b: z3.fpMul(RNE, a, b), None),
@@ -237,6 +239,8 @@ def _py_idivmod_s(a, b):
 
 def _f2i(f, signed):
     if f != f or f in (float("inf"), float("-inf")):
+        raise OverflowError
+    if not signed and f < 0:
         raise OverflowError
     t = math.trunc(f)
     if signed and not (-H <= t < H) or not signed and not (0 <= t < M):
